@@ -7,7 +7,12 @@ Everything is regenerated from the repository on every run:
   * compile_spec    : the same compiler applied to the fixed oracle /verif/spec/tokens.spec
   * SMT-LIB2 (QF_BV) encodings; the verdicts are the answers of z3 and cvc5 (both must agree)
   * native build of the real yylex as encoder validation and for replaying counterexamples
-Pure python (solvers are driven through their command line binaries), so it runs under the system python3.
+Runs under the system python3: the SMT-LIB2 text is handed to `python3-vt lexenc.py --z3 file` (z3 python bindings; the
+z3 4.8 command line binary needs minutes in its front end for the same files) and to the cvc5 binary (eager bit-blasting).
+Encoding notes (measured): tables are ROMs = multiplexer trees over the index bits; every intermediate value of an unrolled
+step is a declared constant tied by an equation (macros make the solvers expand table lookups into each other); the flex
+transition function used by the big queries is the decompressed one, and the query family "decomp" proves it equal to the
+unrolled yy_ec/yy_base/yy_chk/yy_def/yy_meta/yy_nxt walk for every state and byte.
 Byte 0 is part of the alphabet: flex handles a NUL inside the buffer through yy_try_NUL_trans(), which is what
 the model uses for byte 0 (Theo::scan itself can never deliver one: it passes c_str()).
 Not modelled: flex buffer management (yy_get_next_buffer, refill, allocation); end of input is modelled as
@@ -707,7 +712,11 @@ class FlexSMT:
                 table_fun(p + '_flat', SW + 8, SW, {(s << 8) | c: T.step(s, c) for s in range(1, T.nstates) for c in range(256)}),
                 '(define-fun %s_delta ((s (_ BitVec %d)) (c (_ BitVec 8))) (_ BitVec %d) (%s_flat (concat s c)))' % (p, SW, SW, p)]
 
+    use_flat = True
+
     def step(self, N, s, c, tag):
+        if not self.use_flat:
+            return self.raw_step(N, s, c, tag)
         return N.bvs('(%s_delta %s %s)' % (self.p, s, c), tag + 'n'), 'true'
 
     def raw_step(self, N, s, c, tag):
@@ -803,10 +812,19 @@ class Query:
         self.name = name; self.lines = lines; self.expect = expect; self.values = list(values); self.what = what; self.bound = bound
         self.meta = meta or {}; self.answers = {}; self.wall = {}; self.model = None; self.log = {}
 
-    def text(self, model=False):
-        head = ['(set-option :produce-models true)'] if model else []
-        tail = ['(check-sat)'] + (['(get-value (%s))' % ' '.join(self.values)] if model and self.values else [])
-        return '\n'.join(head + HEADER + self.lines + tail) + '\n'
+    def text(self):
+        return '\n'.join(HEADER + self.lines + ['(check-sat)']) + '\n'
+
+
+# exploration order of the byte values: printable ASCII first, NUL last, so that witness strings are readable and in scope
+BYTE_ORDER = list(range(32, 127)) + [10, 9, 13] + [c for c in range(1, 256) if not (32 <= c < 127) and c not in (9, 10, 13)] + [0]
+
+
+def cstr_view(toks, data):
+    """TOK builds the text with std::string(yytext): for an input containing NUL the text stops at the first NUL of the match"""
+    if 0 not in bytes(data):
+        return toks
+    return [(k, t.split(b'\0')[0], l) for (k, t, l) in toks]
 
 
 def product_relation(A, B, limit=400000):
@@ -814,7 +832,7 @@ def product_relation(A, B, limit=400000):
     start = (A.py_start, B.py_start); seen = {start: None}; q = deque([start])
     while q:
         p, r = q.popleft()
-        for c in range(256):
+        for c in BYTE_ORDER:
             n = (A.py_step(p, c), B.py_step(r, c))
             if n not in seen:
                 seen[n] = ((p, r), c); q.append(n)
@@ -840,7 +858,7 @@ def q_bisim(A, B, rel, name):
     infoA = '(concat (ite %s #b1 #b0) %s)' % (A.dead('p'), A.kind('p')); infoB = '(concat (ite %s #b1 #b0) %s)' % (B.dead('q'), B.kind('q'))
     bad = OR('(not %s)' % okA, '(not %s)' % okB, '(not (R %s %s))' % (pn, qn), '(distinct %s %s)' % (infoA, infoB))
     L.append('(assert (or (not (R %s %s)) (and (R p q) %s)))' % (A.start, B.start, bad))
-    return Query(name, L, 'unsat', ['p', 'q', 'c', pn, qn, A.kind('p'), B.kind('q')],
+    return Query(name, L, 'unsat', ['p', 'q', 'c', pn, qn],
                  what='R (reachable product pairs, %d) contains the start pair, is closed under every byte for both step functions, and relates only '
                       'states with equal (dead?, token kind/SKIP/none)' % len(rel), bound='inputs of any length; %d pairs x 256 bytes' % len(rel),
                  meta={'pairs': len(rel)})
@@ -854,7 +872,7 @@ def q_bisim_sanity(A, B, rel, name, kinds):
     L += N.lines
     L.append('(assert (and (R p q) (R %s %s) %s %s (bvugt %s %s) (bvugt %s %s) (not %s) (distinct p %s)))' %
              (pn, qn, okA, okB, A.kind('p'), bv(3, KW), A.kind(pn), bv(3, KW), A.dead(pn), A.start))
-    return Query(name, L, 'sat', ['p', 'q', 'c', pn, qn, A.kind('p'), B.kind('q')], what='vacuity guard: some related pair of token-accepting states has a live accepting successor')
+    return Query(name, L, 'sat', ['p', 'q', 'c', pn, qn], what='vacuity guard: some related pair of token-accepting states has a live accepting successor')
 
 
 def q_decomp(A, name, lo=None, hi=None, sanity=False):
@@ -897,7 +915,7 @@ def eol_monitor(A):
     start = (A.py_start, 0); seen = {start: None}; q = deque([start])
     while q:
         s, n = q.popleft()
-        for c in range(256):
+        for c in BYTE_ORDER:
             t = (A.py_step(s, c), 1 if (n or c == 10) else 0)
             if t not in seen:
                 seen[t] = ((s, n), c); q.append(t)
@@ -942,7 +960,7 @@ def q_munch(A, B, N_, name, mode='seq', extra=None, pin=None):
     T = A.T; N = Names(); BW = 8
     L = A.defs() + B.defs()
     for i in range(N_):
-        L.append('(declare-const b%d (_ BitVec 8))' % i)
+        L.append('(declare-const b%d (_ BitVec 8)) (assert (distinct b%d #x00))' % (i, i))     # strings as c_str() delivers them
     L += ['(declare-const len (_ BitVec 8))', '(declare-const L0 (_ BitVec %d))' % LW,
           '(assert (and (bvuge len #x01) (bvule len %s)))' % bv(N_, 8)]
     offs = range(N_) if mode == 'seq' else range(1)
@@ -950,7 +968,7 @@ def q_munch(A, B, N_, name, mode='seq', extra=None, pin=None):
     one, zero = bv(1, LW), bv(0, LW)
     for i in offs:
         s = A.start; reach = N.bool('(bvult %s len)' % bv(i, 8), 'f%dre' % i)
-        la_s = S(0); la_p = bv(0, 8); cons = bv(0, 8)
+        la_s = S(0); la_p = bv(0, 8); cons = N.let('(_ BitVec 8)', bv(0, 8), 'f%dcons' % i)
         for j in range(N_ - i + 1):
             rec = N.bool('(and %s (distinct (%s_accept %s) %s))' % (reach, A.p, s, S(0)), 'f%drec' % i)
             la_s = N.bvs('(ite %s %s %s)' % (rec, s, la_s), 'f%dlas' % i)
@@ -983,7 +1001,7 @@ def q_munch(A, B, N_, name, mode='seq', extra=None, pin=None):
             cs.append('(=> (and (bvult %s %s) (bvule %s len)) (= %s %s))' % (fl[i], bv(j, 8), bv(i + j, 8), acc[j], bv(0, KW)))
         spec[i] = N.bool(AND(*cs), 'spec%d' % i)
     # chaining of token boundaries, yylineno
-    rch = {0: 'true'}; yl = {0: 'L0'}; okv = {}
+    rch = {0: N.bool('true', 'rch0')}; yl = {0: 'L0'}; okv = {}
     for i in offs:
         if i > 0:
             lands = [N.bool('(and %s (= (bvadd %s %s) %s))' % (rch[k], bv(k, 8), fl[k], bv(i, 8)), 'land%d' % i) for k in range(i)]
@@ -1002,10 +1020,10 @@ def q_munch(A, B, N_, name, mode='seq', extra=None, pin=None):
     viol = OR(*(['(and %s (not %s))' % (active[i], okv[i]) for i in offs] + wf))
     values = ['len', 'L0'] + ['b%d' % i for i in range(N_)]
     for i in offs:
-        values += [rch[i] if rch[i] != 'true' else '(= len len)', fk[i], fl[i], fdl[(i, 'line')], fcons[i]]
+        values += [rch[i], fk[i], fl[i], fdl[(i, 'line')], fcons[i]]
     meta = {'N': N_, 'offs': list(offs), 'mode': mode}
     if pin is not None:
-        L.append('(assert (and (= len %s) (= L0 %s) %s))' % (bv(len(pin), 8), bv(1, LW), ' '.join('(= b%d %s)' % (i, bv(pin[i] if i < len(pin) else 0, 8)) for i in range(N_))))
+        L.append('(assert (and (= len %s) (= L0 %s) %s))' % (bv(len(pin), 8), bv(1, LW), ' '.join('(= b%d %s)' % (i, bv(pin[i] if i < len(pin) else 1, 8)) for i in range(N_))))
         return Query(name, L, 'sat', values, what='encoder validation: the unrolled driver evaluated by the solver on %r' % bytes(pin), meta=meta)
     if extra is not None:
         L.append('(assert (not %s))' % viol)
@@ -1029,20 +1047,40 @@ def munch_decode(q, kinds):
         if rch and i < ln:
             kn = kinds.name(k)
             if kn != SKIP:
-                toks.append((kn, b[i:i + fl], line - l0 + 1))
+                toks.append((kn, b[i:i + fl], ((line - l0) & ((1 << LW) - 1)) + 1))
     return b, toks
 
 # ------------------------------------------------------------------------------------------------------------
 # 4. running the solvers
 # ------------------------------------------------------------------------------------------------------------
 
-SOLVERS = {'z3': lambda f, t: ['z3', '-T:%d' % t, f], 'cvc5': lambda f, t: ['cvc5', '--lang=smt2', '--tlimit=%d' % (t * 1000), f]}
+Z3PY = os.environ.get('VERIF_Z3PY', 'python3-vt')
+SOLVERS = {'z3': lambda f, t: [Z3PY, os.path.abspath(__file__), '--z3', f, str(t)],
+           # eager bit-blasting with the Boolean structure turned into bit-vectors: the ROM-style ite trees are hopeless for the lazy default
+           'cvc5': lambda f, t: ['cvc5', '--lang=smt2', '--bitblast=eager', '--bool-to-bv=all', '--tlimit=%d' % (t * 1000), f]}
+
+
+def z3_main(path, timeout):
+    """runs under python3-vt (z3 python bindings): answer on the first line, then the model of all declared constants as JSON"""
+    import z3
+    s = z3.Solver(); s.set('timeout', int(timeout) * 1000)
+    s.from_file(path)
+    r = s.check()
+    print(str(r) if str(r) != 'unknown' else 'unknown ' + s.reason_unknown())
+    if r == z3.sat:
+        m = s.model(); d = {}
+        for decl in m.decls():
+            if decl.arity() == 0:
+                v = m[decl]
+                d[decl.name()] = v.as_long() if z3.is_bv_value(v) else bool(z3.is_true(v))
+        print(json.dumps(d))
+    print('z3version ' + z3.get_version_string())
 
 
 def run_solver(solver, path, timeout):
     t = time.time()
     try:
-        p = subprocess.run(SOLVERS[solver](path, timeout), stdout=subprocess.PIPE, stderr=subprocess.STDOUT, text=True, timeout=timeout + 15)
+        p = subprocess.run(SOLVERS[solver](path, timeout), stdout=subprocess.PIPE, stderr=subprocess.STDOUT, text=True, timeout=timeout + 20)
         out = p.stdout
     except subprocess.TimeoutExpired:
         return 'timeout', time.time() - t, ''
@@ -1050,51 +1088,490 @@ def run_solver(solver, path, timeout):
         return 'missing', 0.0, ''
     w = time.time() - t
     first = out.strip().split('\n')[0].strip() if out.strip() else ''
-    if '(error' in out or 'rror:' in out:
+    if '(error' in out or 'rror:' in out or 'Traceback' in out:
         return 'error', w, out[:600]
     if first in ('sat', 'unsat'):
         return first, w, out
-    if 'timeout' in out or 'interrupted' in out or first == 'unknown':
-        return 'timeout' if w >= timeout - 1 or 'timeout' in out else 'unknown', w, out[:300]
+    if 'timeout' in out or 'interrupted' in out or 'canceled' in out or first.startswith('unknown'):
+        return 'timeout', w, out[:300]
     return 'error', w, out[:600]
 
 
-def parse_values(out):
-    """(get-value ...) answer -> list of ints/bools in order"""
-    body = out.split('\n', 1)[1] if '\n' in out else ''
-    vals = []
-    for m in re.finditer(r'(#b[01]+|#x[0-9a-fA-F]+|\(_ bv(\d+) \d+\)|\btrue\b|\bfalse\b)\s*\)', body):
-        v = m.group(1)
-        if v.startswith('#b'):
-            vals.append(int(v[2:], 2))
-        elif v.startswith('#x'):
-            vals.append(int(v[2:], 16))
-        elif v.startswith('(_'):
-            vals.append(int(m.group(2)))
-        else:
-            vals.append(v == 'true')
-    return vals
-
-
 def run_query(q, wd, timeout):
-    """both solvers on the same text; a model (z3) when the answer is sat"""
+    """both solvers on the same text; the model comes from z3 when the answer is sat"""
     f = os.path.join(wd, q.name + '.smt2')
-    open(f, 'w').write(q.text(False))
+    open(f, 'w').write(q.text())
     with concurrent.futures.ThreadPoolExecutor(2) as ex:
-        futs = {s: ex.submit(run_solver, s, f, timeout) for s in ('z3', 'cvc5')}
-        for s, fu in futs.items():
-            q.answers[s], q.wall[s], q.log[s] = fu.result()
-    if 'sat' in q.answers.values() and q.values:
-        fm = os.path.join(wd, q.name + '.model.smt2')
-        open(fm, 'w').write(q.text(True))
-        a, w, out = run_solver('z3', fm, timeout)
-        q.wall['z3-model'] = w
-        if a == 'sat':
-            q.model_list = parse_values(out); q.model = True
-            if len(q.model_list) != len(q.values):
-                q.model = None; q.log['z3-model'] = 'could not parse model: ' + out[:300]
-        else:
-            q.log['z3-model'] = out[:300]
+        futs = {sv: ex.submit(run_solver, sv, f, timeout) for sv in ('z3', 'cvc5')}
+        for sv, fu in futs.items():
+            q.answers[sv], q.wall[sv], q.log[sv] = fu.result()
+    if q.answers.get('z3') == 'sat':
+        try:
+            d = json.loads(q.log['z3'].split('\n')[1])
+            q.model_list = [d.get(v, 0) for v in q.values]; q.model = d
+        except Exception as e:
+            q.model = None; q.log['z3-model'] = 'could not parse model: %s' % e
+    try:
+        os.remove(f)
+    except OSError:
+        pass
     return q
 
-# ==END==
+# ------------------------------------------------------------------------------------------------------------
+# 5. the real scanner, natively
+# ------------------------------------------------------------------------------------------------------------
+
+DRIVER = r'''
+// C14 native driver: the calls of create_scanner() in Compiler/src/scan.cpp, one scanner per input line (hex encoded)
+#include "Compiler/include/lexer.hpp"
+#include <cstdio>
+#include <fstream>
+#include <string>
+int main(int argc, char **argv) {
+  std::ifstream f(argv[1]); FILE *o = fopen(argv[2], "w"); std::string line;
+  while (std::getline(f, line)) {
+    std::string in;
+    if (line != "-") for (size_t i = 0; i + 1 < line.size(); i += 2) in.push_back((char)std::stoi(line.substr(i, 2), nullptr, 16));
+    Theo::ScannerInfo *si = new Theo::ScannerInfo{"F"};
+    yyscan_t s; yylex_init(&s);
+    YY_BUFFER_STATE b = in.find('\0') == std::string::npos ? yy_scan_string(in.c_str(), s) : yy_scan_bytes(in.data(), (int)in.size(), s);
+    yyset_lineno(1, s); yyset_extra(si, s);
+    Theo::Token t; long n = 0;
+    while (yylex(&t, s) != 0 && n++ < 100000) {
+      fprintf(o, "T %d %d %s ", (int)t.t, t.line, t.file.c_str());
+      for (unsigned char c : t.text) fprintf(o, "%02x", c);
+      fprintf(o, "\n");
+    }
+    fprintf(o, "E\n");
+    yy_delete_buffer(b, s); yylex_destroy(s); delete si;
+  }
+  fclose(o); return 0;
+}
+'''
+
+
+def token_enum(path):
+    src = open(path).read()
+    m = re.search(r'enum\s+Type\s*\{(.*?)\}', src, re.S)
+    names = {}; v = -1
+    for item in re.sub(r'//[^\n]*', '', m.group(1)).split(','):
+        item = item.strip()
+        if not item:
+            continue
+        mm = re.match(r'(\w+)\s*(?:=\s*(\d+))?$', item)
+        v = int(mm.group(2)) if mm.group(2) is not None else v + 1
+        names[v] = mm.group(1)
+    return names
+
+
+def build_native(wd, tag, lex_c, repo, hdr_root=None):
+    """g++ the given lex.yy.c (as C++) with the driver; returns the executable path"""
+    os.makedirs(wd, exist_ok=True)
+    drv = os.path.join(wd, 'driver_%s.cpp' % tag); exe = os.path.join(wd, 'scan_%s' % tag)
+    open(drv, 'w').write(DRIVER)
+    cmd = ['g++', '-std=c++20', '-O1', '-w'] + (['-I' + hdr_root] if hdr_root else []) + ['-I' + repo, '-I' + os.path.join(repo, 'Compiler', 'include'),
+                                                                                       '-x', 'c++', lex_c, drv, '-o', exe]
+    p = subprocess.run(cmd, stdout=subprocess.PIPE, stderr=subprocess.STDOUT, text=True)
+    if p.returncode != 0:
+        raise Unsupported('native build of %s failed: %s' % (lex_c, p.stdout[-600:]))
+    return exe
+
+
+def run_native(exe, strings, enum, wd, tag='n'):
+    fi = os.path.join(wd, 'in_%s.txt' % tag); fo = os.path.join(wd, 'out_%s.txt' % tag)
+    open(fi, 'w').write(''.join((bytes(s).hex() or '-') + '\n' for s in strings))
+    p = subprocess.run([exe, fi, fo], stdout=subprocess.PIPE, stderr=subprocess.STDOUT, text=True, timeout=120)
+    if p.returncode != 0:
+        raise Unsupported('native scanner exited with %d: %s' % (p.returncode, p.stdout[-300:]))
+    res = []; cur = []
+    for l in open(fo):
+        if l.startswith('E'):
+            res.append(cur); cur = []
+        else:
+            _, k, line, fn, hx = (l.rstrip('\n').split(' ') + [''])[:5]
+            cur.append((enum.get(int(k), '?%s' % k), bytes.fromhex(hx), int(line)) if fn == 'F' else ('BAD_FILE_LABEL', bytes.fromhex(hx), int(line)))
+    if len(res) != len(strings):
+        raise Unsupported('native scanner produced %d results for %d inputs' % (len(res), len(strings)))
+    return res
+
+
+def run_flex(lexer_l, wd):
+    """the 'flex found' configuration: the command of Compiler/CMakeLists.txt in a scratch directory"""
+    if not shutil.which('flex'):
+        return None
+    g = os.path.join(wd, 'gen'); os.makedirs(os.path.join(g, 'Compiler', 'include'), exist_ok=True)
+    out_c = os.path.join(g, 'lex.yy.c'); out_h = os.path.join(g, 'Compiler', 'include', 'lex.yy.h')
+    p = subprocess.run(['flex', '--outfile=' + out_c, '--header-file=' + out_h, '--noline', '--nounistd', lexer_l], stdout=subprocess.PIPE,
+                       stderr=subprocess.STDOUT, text=True, cwd=g)
+    if p.returncode != 0 or not os.path.exists(out_c):
+        raise Unsupported('flex failed on %s: %s' % (lexer_l, p.stdout[-400:]))
+    return out_c, g
+
+
+def c_string_literals(path):
+    src = open(path, encoding='latin-1').read().replace('\\\n', '')
+    out = []
+    for m in re.finditer(r'"((?:[^"\\\n]|\\.)*)"', src):
+        try:
+            b = m.group(1).encode('latin-1').decode('unicode_escape').encode('latin-1')
+        except Exception:
+            continue
+        if len(b) >= 2:
+            out.append(b)
+    return out
+
+
+HANDWRITTEN = [
+    b'PROGRAM Program program PROG Prog prog IN In in OUT Out out DO Do do LOOP Loop loop WHILE While while GOTO Goto goto IF If if THEN Then then '
+    b'STOP Stop stop END End end RUN Run run WITH With with INCLUDE Include include DEFINE Define Def define def AS As as '
+    b'PRIORITY Priority priority PRIO Prio prio END DEFINE End Define end define ENDDEF Enddef enddef VALUE Value value VAL Val val',
+    b'<PROGRAM> <Program> <program> <PROG> <Prog> <prog> <P> <p> <VALUE> <Value> <value> <VAL> <Val> <val> <V> <v> <ID> <id> <INT> <Int> <int> '
+    b'<ARGS> <Args> <args> <A> <a> <Id> <x> < > <PROGRAM',
+    b'PROGRAM add IN x0, x1 OUT x2 DO\n  x2 := x0 + 0;\n  LOOP x1 DO x2 := x2 + 1 END;\n  // comment := LOOP "x\n  WHILE x2 != 0 DO x2 := x2 - 1 END\nEND\n',
+    b'M1: IF x0 = 0 THEN GOTO M2;\nM2: STOP\n$0 $12 $012 #1 #10 #01 007 0 10 _a a_1 A9 9a\n',
+    b'INCLUDE "file name.theo"\nInclude "a\nb" include "" "unterminated\n',
+    b'DEFINE <ID> := <ID> + <INT> AS $0 := $1 + $2 PRIORITY 10 END DEFINE\nEnd  Define END\nDEFINE END\tDEFINE ENDDEFINE',
+    b'!= 0 !=0 != 1 !=  0 ! = :=: :: = == a!= 0b', b'@ \x7f \x80\xff\x01 ~ ` [ ] { } + - * / // /', b'//only comment', b'// c1\n// c2\n\n\nx // c3',
+    b'\n\n\n', b' \t \n', b'a', b'', b'"', b'""', b'"\n\n"x', b'Progx progprog PROGRAMs ENDE ENDDEFx END DEFINEx END DEFIN END  DEFINE', b'RUN p WITH 1,2 ; run P with (3)',
+    b'x\r\ny\r\n', b'\tIF\tx\t!= 0\tTHEN', b'<<ID>> <ID <I <PRO> <VALU> <ARGS', b'$ # $a #b $-1', b'0123 00 1e5 0x10',
+]
+
+
+def corpus(repo, seed, count):
+    import random
+    out = list(HANDWRITTEN)
+    td = os.path.join(repo, 'Compiler', 'test')
+    if os.path.isdir(td):
+        for f in sorted(os.listdir(td)):
+            if f.endswith('.cpp'):
+                out += c_string_literals(os.path.join(td, f))
+    rnd = random.Random(seed)
+    frag = [b'PROG', b'Prog', b'prog', b'RAM', b'ram', b'END', b' ', b' ', b'DEFINE', b'Define', b'\n', b'\t', b'<', b'>', b'ID', b'id', b'INT', b'P', b'V', b'A', b'ARGS', b'!', b'=', b'= 0',
+            b'!= 0', b':', b':=', b';', b',', b'(', b')', b'"', b'//', b'/', b'$', b'#', b'0', b'1', b'9', b'a', b'_', b'x1', b'IF', b'If', b'LOOP', b'Do', b'WHILE', b'val', b'VALUE',
+            b'include', b'def', b'as', b'prio', b'PRIORITY', b'run', b'with', b'in', b'out', b'goto', b'then', b'stop', b'end define', b'End Define', b'enddef', b'\xe4', b'@', b'\x00']
+    for _ in range(count):
+        out.append(b''.join(rnd.choice(frag) for _ in range(rnd.randint(1, 12))))
+    seen = set(); res = []
+    for s in out:
+        if s not in seen:
+            seen.add(s); res.append(s)
+    return res
+
+
+def tok_json(toks):
+    return [{'kind': k, 'text': list(t), 'line': l} for (k, t, l) in toks]
+
+
+def tok_str(toks):
+    return ' '.join('%s(%s)@%d' % (k, t.decode('latin-1').encode('unicode_escape').decode(), l) for (k, t, l) in toks)
+
+# ------------------------------------------------------------------------------------------------------------
+# 6. the check
+# ------------------------------------------------------------------------------------------------------------
+
+TOK_RE = r'\{\s*\*ret\s*=\s*Theo::Token\(\s*t\s*,\s*std::string\(\s*yytext\s*\)\s*,\s*yyextra->filename\s*,\s*yylineno\s*\)\s*;\s*return\s+1\s*;\s*\}'
+DECL_RE = r'int\s+yylex\s*\(\s*Theo::Token\s*\*\s*ret\s*,\s*yyscan_t\s+yyscanner\s*\)'
+SUFFIXES = [b'', b'(', b' (', b'\n(', b'a', b' a', b'\n', b'"', b'\n"(']
+
+
+def text_checks(objs, repo):
+    """TOK / YY_DECL are compared structurally (assumption check, not a solver result)"""
+    bad = []
+    for nm, o in objs:
+        if o is None:
+            continue
+        if not o.tok_macro or not re.fullmatch(TOK_RE, o.tok_macro):
+            bad.append('%s: TOK macro is not {*ret = Theo::Token(t, std::string(yytext), yyextra->filename, yylineno); return 1;}: %r' % (nm, o.tok_macro))
+        if not o.yy_decl or not re.fullmatch(DECL_RE, o.yy_decl):
+            bad.append('%s: YY_DECL is not int yylex(Theo::Token *ret, yyscan_t yyscanner): %r' % (nm, o.yy_decl))
+    try:
+        h = open(os.path.join(repo, 'Compiler', 'include', 'lexer.hpp')).read()
+        m = re.search(r'^#define YY_DECL\s+(.*)$', h, re.M)
+        if not m or not re.fullmatch(DECL_RE, m.group(1).strip()):
+            bad.append('lexer.hpp: YY_DECL differs')
+    except OSError:
+        bad.append('lexer.hpp not readable')
+    return bad
+
+
+def find_mismatch(A, B, seen, frm, limit=200000):
+    """BFS in the product from a pair to a pair whose token kinds differ -> byte string or None"""
+    q = deque([(frm, b'')]); vis = {frm}
+    while q:
+        (p, r), w = q.popleft()
+        if A.py_kind(p) != B.py_kind(r):
+            return w
+        for c in BYTE_ORDER:
+            n = (A.py_step(p, c), B.py_step(r, c))
+            if n not in vis and len(vis) < limit:
+                vis.add(n); q.append((n, w + bytes([c])))
+    return None
+
+
+def run_all(tier='quick', wd=None, seed=0, repo=None, spec=SPEC, lex_c=None, lexer_l=None, log=None):
+    """-> dict for props/c14.py.  Every path can be overridden (mutation tests)."""
+    t_start = time.time()
+    P = repo_paths(repo); repo = P['repo']
+    lex_c = lex_c or P['lex_c']; lexer_l = lexer_l or P['lexer_l']
+    own_wd = wd is None
+    wd = wd or os.path.join(VERIF, 'build', 'lex.%d' % os.getpid())
+    os.makedirs(wd, exist_ok=True)
+    cap = 120 if tier == 'quick' else 600
+    res = {'inconclusive': [], 'violations': [], 'obligations': 0, 'discharged': 0, 'witness_ok': 0, 'queries': 0, 'solver_s': 0.0, 'samples': [],
+           'coverage': {}, 'assumption_checks': [], 'disagreements': 0, 'notes': [], 'functions': ['yylex (tables, matching loop, yylineno loop, action switch)', 'yy_try_NUL_trans']}
+    say = (lambda m: (print('[lexenc %.0fs] %s' % (time.time() - t_start, m), file=sys.stderr, flush=True))) if log else (lambda m: None)
+    try:
+        _run(res, tier, wd, seed, repo, spec, lex_c, lexer_l, cap, P, say)
+    except Unsupported as e:
+        res['inconclusive'].append('encoder: ' + str(e))
+    finally:
+        res['max_rss'] = resource.getrusage(resource.RUSAGE_CHILDREN).ru_maxrss // 1024
+        if own_wd:
+            shutil.rmtree(wd, ignore_errors=True)
+    res['wall_s'] = round(time.time() - t_start, 1)
+    return res
+
+
+def _run(res, tier, wd, seed, repo, spec, lex_c, lexer_l, cap, P, say):
+    cov = res['coverage']
+    A_t = FlexTables(lex_c); A_t.max_chain()
+    L_d = compile_lexer_l(lexer_l); S_d = compile_spec(spec)
+    enum = token_enum(P['token_hpp'])
+    pool = concurrent.futures.ThreadPoolExecutor(8)
+    # configuration "flex found"
+    G_t = None; gen = None
+    if shutil.which('flex'):
+        gen = run_flex(lexer_l, wd)
+        G_t = FlexTables(gen[0]); G_t.max_chain()
+        cov['regenerated_identical_text'] = open(gen[0], 'rb').read() == open(lex_c, 'rb').read()
+    cov.update({'flex_found': G_t is not None, 'lex_yy_c_sha': A_t.sha, 'lexer_l_sha': L_d.sha, 'tokens_spec_sha': S_d.sha,
+                'dfa_sizes': {'lex.yy.c': A_t.nstates - 1, 'lexer.l': L_d.n, 'tokens.spec': S_d.n, 'regenerated': (G_t.nstates - 1) if G_t else None},
+                'rules': {'lex.yy.c': A_t.num_rules, 'lexer.l': len(L_d.rules), 'tokens.spec': len(S_d.rules)}, 'default_chain_unroll': A_t.chain + 1})
+    # native builds in the background
+    fut_nat = {'committed': pool.submit(build_native, wd, 'committed', lex_c, repo)}
+    if G_t:
+        fut_nat['regenerated'] = pool.submit(build_native, wd, 'regenerated', gen[0], repo, gen[1])
+    # assumption checks on the texts
+    bad = text_checks([('lex.yy.c', A_t), ('lexer.l', L_d), ('regenerated lex.yy.c', G_t)], repo)
+    if 'yylineno' not in L_d.options:
+        bad.append('lexer.l: %option yylineno missing')
+    res['assumption_checks'] = [{'check': 'TOK builds the token from yytext, yyextra->filename, yylineno; YY_DECL as in lexer.hpp; %option yylineno', 'failed': bad}]
+    kinds = KindIds()
+    for o in (A_t, G_t):
+        if o:
+            kinds.add(o.actions.values())
+    kinds.add(L_d.rule_kind); kinds.add(S_d.rule_kind)
+    enum_names = set(enum.values())
+    for k in kinds.ids:
+        if k not in (NONE, SKIP, ECHO, EOB) and k not in enum_names:
+            res['notes'].append('kind %s is not an enumerator of Theo::Token::Type' % k)
+    A = FlexSMT(A_t, 'A', kinds); Lr = RefSMT(L_d, 'L', kinds); Sr = RefSMT(S_d, 'S', kinds)
+    G = FlexSMT(G_t, 'G', kinds) if G_t else None
+    impls = [('committed', A)] + ([('regenerated', G)] if G else [])
+    N_ = 6 if tier == 'quick' else 10
+    NSEQ = 4 if tier == 'quick' else 6
+    cov['bounds'] = {'munch_first_token_bytes': N_, 'munch_stream_bytes': NSEQ, 'bisimulation': 'unbounded (inductive)', 'alphabet': 'all 256 byte values'}
+    # --- queries
+    Q = []          # (query, handler info)
+    rels = {}
+
+    def add(q, **info):
+        Q.append((q, info)); return q
+    comps = [('tables_vs_lexer_l', A, Lr, 'committed'), ('tables_vs_spec', A, Sr, 'committed')]
+    if G:
+        comps += [('tables_vs_regenerated', A, G, 'committed'), ('regenerated_vs_spec', G, Sr, 'regenerated')]
+    for nm, X, Y, impl in comps:
+        rel = product_relation(X, Y); rels[nm] = rel
+        add(q_bisim(X, Y, rel, 'bisim_' + nm), type='bisim', X=X, Y=Y, rel=rel, impl=impl, comp=nm)
+        add(q_bisim_sanity(X, Y, rel, 'bisim_' + nm + '_sanity', kinds), type='sanity_bisim', X=X, Y=Y, rel=rel, impl=impl)
+    cov['states'] = sum(len(r) for r in rels.values()); cov['transitions'] = cov['states'] * 256
+    cov['relation_sizes'] = {k: len(v) for k, v in rels.items()}
+    for impl, F in impls:
+        n = F.T.nstates; step = (n + 3) // 4
+        for k, lo in enumerate(range(1, n, step)):
+            add(q_decomp(F, 'decomp_%s_%d' % (impl, k), lo, min(n, lo + step)), type='decomp', F=F, impl=impl)
+        add(q_decomp(F, 'decomp_%s_sanity' % impl, sanity=True), type='sanity')
+        add(q_total(F, 'total_' + impl), type='total', F=F, impl=impl)
+        mon = eol_monitor(F)
+        add(q_eol_flex(F, mon, 'eol_flags_' + impl), type='eol', F=F, impl=impl, mon=mon)
+        if len(L_d.rules) + 1 == F.T.num_rules:
+            add(q_eol_rules(Lr, F, eol_monitor(Lr), 'eol_rules_' + impl), type='eolrules', F=F, impl=impl)
+        else:
+            res['notes'].append('rule count of lexer.l (%d) + default rule != YY_NUM_RULES (%d) of %s: per-rule eol query skipped (the bisimulation decides)' % (len(L_d.rules), F.T.num_rules, impl))
+        add(q_munch(F, Sr, N_, 'munch_first_%s_N%d' % (impl, N_), mode='first'), type='munch', F=F, impl=impl)
+        add(q_munch(F, Sr, NSEQ, 'munch_stream_%s_N%d' % (impl, NSEQ), mode='seq'), type='munch', F=F, impl=impl)
+        add(q_munch(F, Sr, NSEQ, 'munch_%s_sanity_backup' % impl, mode='seq',
+                    extra=lambda d: AND('(= len %s)' % bv(d['N'], 8), OR(*['(and %s (bvuge %s (bvadd %s #x02)) (bvuge %s #x01))' % (d['active'][i], d['fcons'][i], d['fl'][i], d['fl'][i]) for i in d['offs']]))),
+            type='sanity_munch', F=F, impl=impl)
+        add(q_munch(F, Sr, NSEQ, 'munch_%s_sanity_newline' % impl, mode='seq',
+                    extra=lambda d: OR(*['(and %s (bvuge %s #x03) (distinct %s %s) (distinct %s %s))' % (d['active'][i], d['fl'][i], d['fdl'][i], bv(0, LW), d['fk'][i], bv(1, KW)) for i in d['offs'] if i >= 1])),
+            type='sanity_munch', F=F, impl=impl)
+        for k, pin in enumerate([b'IF a', b'a:=1', b'!= 0', b'"\n"x', b'//\ny', b'Prog', b'<ID>', b'$0#1', b'EN D', b'\n\n(', b'=!=\xff'][:11 if tier != 'quick' else 6]):
+            add(q_munch(F, Sr, NSEQ, 'munch_%s_pin%d' % (impl, k), mode='seq', pin=pin[:NSEQ]), type='pin', F=F, impl=impl, pin=pin[:NSEQ])
+    say('%d queries generated' % len(Q))
+    futs = [pool.submit(run_query, q, wd, cap) for (q, _) in Q]
+    # --- encoder validation against the real yylex while the solvers run
+    exes = {}
+    for k, f in fut_nat.items():
+        exes[k] = f.result()
+    strings = corpus(repo, seed, 300 if tier == 'quick' else 3000)
+    native = {k: run_native(exes[k], strings, enum, wd, k) for k in exes}
+    traces = len(strings) * len(exes)
+    corpus_cands = []
+    model_mismatch = []; candidates = []     # candidates: (comparison, impl, input, expected, origin)
+    for impl, F in impls:
+        for s_, nt in zip(strings, native[impl]):
+            mt = cstr_view(flex_tokens(F.T, s_), s_)
+            if mt != nt:
+                model_mismatch.append('%s scanner on %r: model %s / yylex %s' % (impl, s_[:40], tok_str(mt)[:200], tok_str(nt)[:200]))
+            rt = cstr_view(ref_tokens(S_d, s_), s_)
+            if rt != nt:
+                corpus_cands.append(('corpus_vs_spec', impl, s_, rt, 'corpus string (testing, not a solver result)'))
+    say('native validation done (%d strings)' % traces)
+    for f in futs:
+        f.result()
+    say('solvers done')
+    # --- verdicts
+    extra_native = []   # (impl, bytes) strings produced by the solvers, run natively afterwards
+    for q, info in Q:
+        a = q.answers; res['queries'] += len(a); res['solver_s'] += sum(q.wall.values())
+        samp = {'obligation': q.name, 'what': q.what, 'bounds': q.bound, 'expected': q.expect, 'answers': a, 'wall_s': {k: round(v, 2) for k, v in q.wall.items()}}
+        res['samples'].append(samp)
+        bad_ans = [s_ for s_, v in a.items() if v not in ('sat', 'unsat')]
+        if bad_ans:
+            res['inconclusive'].append('%s: %s' % (q.name, '; '.join('%s %s after %.0fs %s' % (s_, a[s_], q.wall[s_], q.log.get(s_, '')[:200].replace('\n', ' ')) for s_ in bad_ans)))
+            continue
+        if len(set(a.values())) != 1:
+            res['disagreements'] += 1
+            res['inconclusive'].append('%s: solvers disagree %s' % (q.name, a)); continue
+        ans = a['z3']
+        t = info['type']
+        if q.expect == 'unsat':
+            res['obligations'] += 1
+            if ans == 'unsat':
+                res['discharged'] += 1; continue
+            if q.model is None:
+                res['inconclusive'].append('%s: sat but no model (%s)' % (q.name, q.log.get('z3-model', ''))); continue
+            m = q.model_list; samp['model'] = m
+            F = info.get('F'); impl = info.get('impl')
+            if t == 'bisim':
+                X, Y, rel = info['X'], info['Y'], info['rel']; p, r, c = m[0], m[1], m[2]
+                if (p, r) not in rel:
+                    res['inconclusive'].append('%s: witness (%d,%d) is not in R (start pair not in R?)' % (q.name, p, r)); continue
+                w = path_to(rel, (p, r)); frm = (p, r)
+                if (X.py_dead(p), X.py_kind(p)) == (Y.py_dead(r), Y.py_kind(r)):
+                    frm = (X.py_step(p, c), Y.py_step(r, c))
+                    if frm in rel:
+                        res['disagreements'] += 1
+                        res['inconclusive'].append('%s: solver witness p=%d q=%d c=%d is not a counterexample in the python model (encoding disagreement)' % (q.name, p, r, c)); continue
+                    w += bytes([c])
+                ext = find_mismatch(X, Y, rel, frm)
+                base = w + (ext or b'')
+                ref = (lambda s_, Y=Y: flex_tokens(Y.T, s_)) if isinstance(Y, FlexSMT) else (lambda s_, Y=Y: ref_tokens(Y.D, s_))
+                cand = [base + sfx for sfx in SUFFIXES]
+                candidates.append((info['comp'], impl, cand, ref, 'solver witness p=%d q=%d c=%d' % (p, r, c)))
+            elif t == 'eol':
+                s_, n_, c = m[0], m[1], m[2]; mon = info['mon']
+                if (s_, n_) not in mon:
+                    res['inconclusive'].append('%s: witness not in M' % q.name); continue
+                w = path_to(mon, (s_, n_))
+                candidates.append((q.name, impl, [w + sfx for sfx in SUFFIXES] + [w + bytes([c]) + sfx for sfx in SUFFIXES], lambda x: ref_tokens(S_d, x), 'solver witness state=%d nl=%d c=%d' % (s_, n_, c)))
+            elif t == 'eolrules':
+                res['notes'].append('%s: a rule of lexer.l can match \\n without its flag (witness DFA state %d); observable only through eol_flags / munch' % (q.name, m[0]))
+                res['inconclusive'].append('%s: sat (flag missing for a rule whose language contains \\n); no observable difference derived' % q.name)
+            elif t == 'total':
+                candidates.append((q.name, impl, [bytes([m[0]]) + sfx for sfx in SUFFIXES], lambda x: ref_tokens(S_d, x), 'solver witness byte %d' % m[0]))
+            elif t == 'munch':
+                b, toks = munch_decode(q, kinds)
+                candidates.append((q.name, impl, [b], lambda x: ref_tokens(S_d, x), 'solver model %r' % b))
+            elif t == 'decomp':
+                res['disagreements'] += 1
+                res['inconclusive'].append('%s: the unrolled table walk and the python decompression differ at state %d byte %d (encoder problem)' % (q.name, m[0], m[1]))
+        else:
+            if ans != 'sat' or q.model is None:
+                res['inconclusive'].append('%s: vacuity guard not satisfiable (%s)' % (q.name, ans)); continue
+            m = q.model_list; ok = True
+            if t == 'sanity_bisim':
+                X, Y, rel = info['X'], info['Y'], info['rel']
+                if (m[0], m[1]) in rel:
+                    extra_native.append((info['impl'], path_to(rel, (m[0], m[1])) + bytes([m[2]])))
+                else:
+                    ok = False
+            elif t in ('sanity_munch', 'pin'):
+                b, toks = munch_decode(q, kinds)
+                if t == 'pin' and b != info['pin']:
+                    ok = False
+                extra_native.append((info['impl'], b, toks, q.name))
+            if ok:
+                res['witness_ok'] += 1
+            else:
+                res['inconclusive'].append('%s: model of the vacuity guard is not consistent with the python model' % q.name)
+    # --- solver-produced strings through the real yylex
+    flat = []
+    for c in candidates:
+        if isinstance(c[2], list):
+            flat += [(c[1], s_) for s_ in c[2]]
+    flat += [(e[0], e[1]) for e in extra_native]
+    nat2 = {}
+    for impl in exes:
+        ss = [s_ for (i, s_) in flat if i == impl]
+        if ss:
+            for s_, nt in zip(ss, run_native(exes[impl], ss, enum, wd, impl + '2')):
+                nat2[(impl, s_)] = nt
+            traces += len(ss)
+    for e in extra_native:
+        impl, b = e[0], e[1]; F = dict(impls)[impl]
+        nt = nat2[(impl, b)]; mt = cstr_view(flex_tokens(F.T, b), b)
+        if mt != nt:
+            model_mismatch.append('%s scanner on solver string %r: model %s / yylex %s' % (impl, b, tok_str(mt), tok_str(nt)))
+        if len(e) > 2 and e[2] != nt:
+            model_mismatch.append('%s: tokens computed inside the SMT encoding for %r: %s / yylex %s' % (e[3], b, tok_str(e[2]), tok_str(nt)))
+    # solver witnesses first; of the differences seen while validating on the corpus only the two shortest per build
+    for impl in exes:
+        candidates += sorted([c for c in corpus_cands if c[1] == impl], key=lambda c: len(c[2]))[:2]
+    cov['corpus_strings_differing_from_spec'] = len(corpus_cands)
+    for comp, impl, inp, ref, origin in candidates:
+        if isinstance(inp, list):
+            hit = None
+            for s_ in inp:
+                nt = nat2[(impl, s_)]; F = dict(impls)[impl]
+                if cstr_view(flex_tokens(F.T, s_), s_) != nt:
+                    model_mismatch.append('%s scanner on counterexample %r: model and yylex differ' % (impl, s_))
+                if cstr_view(ref(s_), s_) != nt:
+                    hit = (s_, cstr_view(ref(s_), s_), nt); break
+            if hit is None:
+                res['disagreements'] += 1
+                res['inconclusive'].append('%s: %s did not lead to an input on which the real yylex (%s build) differs from the reference' % (comp, origin, impl)); continue
+            s_, exp, got = hit
+        else:
+            s_, exp = inp, ref; got = native[impl][strings.index(s_)]
+        res['violations'].append({'comparison': comp, 'config': impl, 'input': list(s_), 'expected': tok_json(exp), 'got': tok_json(got), 'origin': origin,
+                                  'assertion': '%s: on %r expected [%s] but the %s scanner yields [%s]' % (comp, s_, tok_str(exp)[:300], impl, tok_str(got)[:300])})
+    # one report per distinct (config, input); at most 12
+    seen = set(); vs = []
+    for v in res['violations']:
+        k = (v['config'], bytes(v['input']))
+        if k not in seen:
+            seen.add(k); vs.append(v)
+    res['violations'] = vs[:12]
+    if model_mismatch:
+        res['disagreements'] += len(model_mismatch)
+        res['inconclusive'].append('encoder validation failed: table model and real yylex differ on %d inputs, e.g. %s' % (len(model_mismatch), model_mismatch[0][:400]))
+    if bad:
+        res['inconclusive'].append('assumption check failed: ' + '; '.join(bad)[:600])
+    cov['traces_validated_against_impl'] = traces
+    cov['corpus_strings'] = len(strings)
+    pool.shutdown()
+
+
+if __name__ == '__main__':
+    if len(sys.argv) >= 4 and sys.argv[1] == '--z3':
+        z3_main(sys.argv[2], sys.argv[3]); sys.exit(0)
+    import argparse
+    ap = argparse.ArgumentParser()
+    ap.add_argument('--tier', default='quick'); ap.add_argument('--repo'); ap.add_argument('--lex-c'); ap.add_argument('--lexer-l'); ap.add_argument('--spec', default=SPEC)
+    a = ap.parse_args()
+    r = run_all(a.tier, None, 0, a.repo, a.spec, a.lex_c, a.lexer_l, log=True)
+    for s in r['samples']:
+        print('%-40s %-6s %s %s' % (s['obligation'], s['expected'], s['answers'], s['wall_s']))
+    print(json.dumps({k: v for k, v in r.items() if k != 'samples'}, indent=1, default=str))
